@@ -222,6 +222,7 @@ for _nm, _lab in (("convert_resource", "convert_resource"),):
 c = contract(PL, "LongPoll.poll", ["C12", "C08"])
 c.param("self", OBJ("LongPoll"))
 c.req("grpc", lambda S_: S_.I.assume_shape(S_.old.f(S_.a.self, "grpc"), OBJ("GRPCService", inv=False)) or z3.BoolVal(True))
+c.init_ghost = lambda S_: S_.I.st.ghost.setdefault("config_types", {}).update({"resource": OBJ("Resource")})
 c.result = NONE
 c.host_ops_exc_base = "Exception"
 c.modifies = lambda S_: [("all",)]
